@@ -42,12 +42,6 @@ let () = register "tof" (fun args ->
   | [il; content] -> show_outcome show_barcode (tof_encode (zlist_of_hex content) (il = "1"))
   | _ -> "BAD")
 
-(* the model of the repaired code (not used by the check; for the coordinator) *)
-let () = register "tofpatched" (fun args ->
-  match args with
-  | [il; content] -> show_outcome show_barcode (tof_encode_patched (zlist_of_hex content) (il = "1"))
-  | _ -> "BAD")
-
 let () = register "tofcs" (fun args ->
   match args with
   | [content] -> show_cs (tof_add_checksum (zlist_of_hex content))
